@@ -507,6 +507,12 @@ def run(ctx):
     # --- only leftovers of failed attempts are collected (daemon side)
     from rules import qsend
     rg = rep.rule('C01.10-collector', 'R-GUARD', 'qmail-send cleanup_do: a mess file is handed to qmail-clean only if it is older than OSSIFIED and has neither an info nor a todo entry (an accepted message always has one of them)')
+    # ... and qmail-clean removes both files of such a leftover or reports the failure (concrete request sessions, C18 rule 1)
+    from rules import C18 as _c18
+    HC_, _ = _c18.explore_clean(db, rep)
+    for inst_, v_ in sorted(HC_.sites.items()):
+        if inst_.startswith('removal-order:') or inst_ in ('plus-only-after-the-whole-removal-sequence', 'exactly-one-status-byte-per-request', 'no-unlink-after-an-answer'):
+            rg.check(v_[0], 'qmail-clean:' + inst_, v_[1], v_[2], v_[3])
     qsend.attach(rg, qsend.analyse_cleanup_do(db, rep), prefixes=['gc:'])
     rg.expect_min(2)
 
